@@ -109,13 +109,17 @@ class Emitter:
         self.ntype = 0
         self.nx = 0
         self.declared = set()
+        self.last_leaf_line = -1
+        self.topdown = False
 
     def struct(self, name, fields):
         lines = []
+        self.last_leaf_line = -1
         for f in fields:
             if f[0] == "leaf":
                 tag = ' `parquet:"%s"`' % f[3] if f[3] else ""
                 lines.append("\t%s %s%s%s" % (f[2], REP_PREFIX[f[1]], f[4], tag))
+                self.last_leaf_line = len(lines) - 1
             elif f[0] == "group":
                 tn = "T" + f[3]
                 self.struct(tn, f[2])
@@ -136,6 +140,14 @@ class Emitter:
                     self.struct(tn, f[2])
                 tag = ' `parquet:"%s"`' % f[4] if f[4] else ""
                 lines.append("\t%s %s%s%s" % (f[3], REP_PREFIX[f[1]], tn, tag))
+            elif f[0] == "excluded" and f[1] == "joined":
+                # an unexported name added to the previous leaf's declaration:  N3, x7 int32 `parquet:"n3"`
+                self.nx += 1
+                if lines and self.last_leaf_line == len(lines) - 1:
+                    head, rest = lines[-1].lstrip("\t").split(" ", 1)
+                    lines[-1] = "\t%s, x%d %s" % (head, self.nx, rest)
+                else:
+                    lines.append("\tx%d, y%d int32" % (self.nx, self.nx))
             elif f[0] == "excluded":
                 how, gt = f[1], f[2]
                 self.nx += 1
@@ -159,11 +171,14 @@ class Emitter:
         imp = ""
         if imports:
             imp = "import (\n" + "".join('\t"%s"\n' % i for i in imports) + ")\n\n"
-        return "package %s\n\n%s%s%s" % (self.pkg, imp, extra, "\n".join(self.types))
+        types = list(reversed(self.types)) if self.topdown else self.types  # top-down: outer types are declared before the types they use
+        return "package %s\n\n%s%s%s" % (self.pkg, imp, extra, "\n".join(types))
 
 
-def emit(pkg, fields, prim_offset=0, imports=(), tag_all=False, prims=None, extra=""):
-    return Emitter(pkg).source(annotate(fields, prims=prims, prim_offset=prim_offset, tag_all=tag_all), imports, extra)
+def emit(pkg, fields, prim_offset=0, imports=(), tag_all=False, prims=None, extra="", topdown=False):
+    e = Emitter(pkg)
+    e.topdown = topdown
+    return e.source(annotate(fields, prims=prims, prim_offset=prim_offset, tag_all=tag_all), imports, extra)
 
 
 # ---------------------------------------------------------------------------
